@@ -35,12 +35,6 @@ def _det(a):
     return bool(a) and a.get("d", 0) != 0
 
 
-def p_n10(case, rec, exp):
-    """Go export of a view whose buffer is detached: wild slice / panic (I) instead of an empty slice (S)"""
-    o, rs, ri = _at(case, exp, ("goexport",))
-    return bool(o) and rs.startswith("RExp 0") and (ri.startswith("RExp") or ri == "RPanic")
-
-
 CFG = {
     "id": "C17",
     "harness": "c17",
@@ -69,10 +63,10 @@ CFG = {
              "(numbers as bit patterns), error class, canaries, the set of detached buffers and a 32-bit hash of all buffer memory; "
              "at the end a 61-bit hash. A case fails if the implementation differs from S at any step, or if any range touched by the "
              "model's own MI or S reading on that history is outside its view or on a detached buffer. Non-trivial = at least 5 "
-             "executed steps or a detach; distinct = by hash of the case. The region of the one open finding (C17-N10: Export of a view on a detached buffer) is left to the corpus; "
-             "the only other exclusion is a NaN moved between the two float kinds by set(typedArray) (implementation-defined payload)."),
+             "executed steps or a detach; distinct = by hash of the case. No input region is avoided (C17 has no open finding); "
+             "the only exclusion is a NaN moved between the two float kinds by set(typedArray) (implementation-defined payload)."),
     "theorem_names": ["touched_in_view", "allowed_in_buffer", "inv_init", "inv_step", "touched_in_view_history",
-                      "bytes_eq_spec", "int_conv_eq", "export_detached_refuted", "raw_roundtrip", "raw_roundtrip_bits", "bits64_roundtrip", "bits32_roundtrip", "of_bits_wf",
+                      "bytes_eq_spec", "int_conv_eq", "raw_roundtrip", "raw_roundtrip_bits", "bits64_roundtrip", "bits32_roundtrip", "of_bits_wf",
                       "le_codec", "clamp_range", "clamp_spec"],
     "allowed_axioms": [],
     "trusted_base": [
@@ -86,7 +80,7 @@ CFG = {
         "the bit pattern of a stored NaN (implementation-defined in ECMA-262) is pinned to goja's",
         "the implementation is tied to the model only on the generated histories (correspondence), not by proof",
     ],
-    "predicates": {"C17.export_view_on_detached_buffer": p_n10},
+    "predicates": {},
     "manifest": {
         "text": ("proof: a byte-list model of ArrayBuffers (with a detached flag; a detached buffer keeps its bytes, they are the Go "
                  "owner's memory), typed-array views of the 11 element kinds and DataViews, in two readings (S = ECMA-262, I = goja's "
